@@ -112,6 +112,12 @@ def main():
             seqs.append(steps)
         logs_out.append({"cases": cases, "seqs": seqs})
     out["logs"] = logs_out
+    wild = []
+    for w in req.get("wild", []):
+        raw = b"".join(c08_ref.Batch(b["base"], b["last"], b["pid"], b["txn"], b["ctl"],
+                                     [tuple(r) for r in b["recs"]]).raw for b in w["batches"])
+        wild.append(run_fetch(raw, w["idx"], w["f"], w["iso"]))
+    out["wild"] = wild
     out["consume"] = [run_consume(c["q"], c["o"]) for c in req.get("consume", [])]
     print(json.dumps(out))
 
